@@ -163,3 +163,11 @@ reg("C16",
     "10 scenarios at sync points; 10 scenarios at line points with <= 2 preemptions",
     ["scenario DAGs use main-thread nodes only, so no thread exists that the baton scheduler does not own; the pool and the future sets are per-execution locals",
      "line granularity is the finest preemption grain CPython exposes to sys.settrace; library frames (networkx, asyncio, pydantic) are not preemptible"])
+
+reg("C17",
+    "(i) every 2-statement program of C01's alphabet (plus programs with setup nodes) built as DAG and as AsyncDAG: same returned value, same library calls with the same arguments, same setup results recorded in dag.results, both equal to the reference; "
+    "(ii) k in {2,3} concurrent awaits of ONE AsyncDAG in one event loop with distinct arguments, all shapes N<=3 x every resource assignment containing an async-thread node x max_concurrency {1,2}: EVERY order in which a driver coroutine serves the parked executions "
+    "and every subset of their pending async-thread nodes completing; each await must return the tokens of its own execution and every node must have received its own execution's argument and tokens; "
+    "(iii) liveness: a ticker coroutine in the same loop must make progress between entry and exit of every async-thread node. non-trivial = gathered schedules with >= 1 real choice; distinct 2-statement programs",
+    "(i) ops {+,<}, one of 3 configurations by rotation; (ii) N<=2 with k in {2,3}, N=3 with k=2; schedules per case capped at 3000 (cap hits reported)",
+    "(i) ops {+,<,==,&}; (ii) N<=3, k in {2,3} for N<=2", PROG_ASSUME)
